@@ -4,11 +4,14 @@
 //!   vcheck selftest [--deep]
 //! exit 0 = held on everything explored; 1 = VIOLATION printed; 2 = machinery failure.
 
+mod bitboards;
 mod common;
 mod explore;
 mod oracles;
 mod positions;
 mod roots;
+mod small;
+mod tables;
 
 use common::*;
 use serde_json::{json, Value};
@@ -76,6 +79,16 @@ fn main() {
             gate();
             positions::run(&cmd, &args)
         }
+        "C08" => tables::run_c08(&args),
+        "C09" => tables::run_c09(&args),
+        "C14" => small::run_c14(&args),
+        "C16" => small::run_c16(&args),
+        "C17" => {
+            gate();
+            small::run_c17(&args)
+        }
+        "C18" => bitboards::run_c18(&args),
+        "C19" => small::run_c19(&args),
         "replay" => {
             gate();
             replay(&args)
@@ -96,6 +109,13 @@ fn replay(args: &Args) -> i32 {
     let run = || -> Vec<Divergence> {
         match prop.as_str() {
             "C01" | "C02" | "C03" | "C04" | "C05" => positions::replay_case(&prop, case),
+            "C08" => tables::replay_c08(case),
+            "C09" => tables::c09_all().2,
+            "C14" => small::replay_c14(case),
+            "C16" => small::replay_c16(case),
+            "C17" => small::c17_walk().divs.into_iter().map(|x| x.0).collect(),
+            "C18" => bitboards::replay_c18(case),
+            "C19" => small::c19_all(Tier::Quick).2,
             _ => machinery_failure(&format!("no replayer for {prop}")),
         }
     };
